@@ -51,6 +51,45 @@ impl UnlockableFile for File {
     }
 }
 
+/**
+Check that the locked file is still the file that the path names.
+
+The lock is held on the open file and not on its name. If the file was removed (e.g. by
+`DB::destroy_database`) after it was opened here but before the lock was acquired, the lock would
+be held on a file that nobody else can see and the next caller would create and lock a new file at
+the same path.
+*/
+#[cfg(target_family = "unix")]
+fn ensure_lock_file_is_still_at_path(file: &File, path: &Path) -> io::Result<()> {
+    use std::os::unix::fs::MetadataExt;
+
+    let locked_file_metadata = file.metadata()?;
+    let is_same_file = match fs::metadata(path) {
+        Ok(path_metadata) => {
+            path_metadata.dev() == locked_file_metadata.dev()
+                && path_metadata.ino() == locked_file_metadata.ino()
+        }
+        Err(_) => false,
+    };
+
+    if is_same_file {
+        return Ok(());
+    }
+
+    Err(io::Error::new(
+        io::ErrorKind::Other,
+        format!(
+            "The lock file at {:?} was removed or replaced while it was being locked.",
+            path
+        ),
+    ))
+}
+
+#[cfg(not(target_family = "unix"))]
+fn ensure_lock_file_is_still_at_path(_file: &File, _path: &Path) -> io::Result<()> {
+    Ok(())
+}
+
 /// File system implementation that delegates I/O to the operating system.
 pub struct OsFileSystem {}
 
@@ -149,6 +188,7 @@ impl FileSystem for OsFileSystem {
             .truncate(true)
             .open(path)?;
         file.try_lock_exclusive()?;
+        ensure_lock_file_is_still_at_path(&file, path)?;
 
         Ok(FileLock::new(Box::new(file)))
     }
@@ -311,6 +351,7 @@ impl FileSystem for TmpFileSystem {
             .truncate(true)
             .open(self.get_rooted_path(path))?;
         file.try_lock_exclusive()?;
+        ensure_lock_file_is_still_at_path(&file, &self.get_rooted_path(path))?;
 
         Ok(FileLock::new(Box::new(file)))
     }
